@@ -79,6 +79,40 @@ Stmts(st, i, l) == IF i > Len(st) THEN << >>
 Lead(l) == CASE l.lead = "none" -> << >> [] l.lead = "lf" -> EOL(l) [] OTHER -> W("sp2") \o EOL(l)
 Render(st, l) == Lead(l) \o Stmts(st, 1, l)
 
+\* ---------- the printer: the canonical text `--fmt` writes for a structure (independent of the layout it was read from) ----------
+\* ast.Tree.String: comments as "# " + trimmed text (an empty comment prints nothing), `NAME := value`, tasks as
+\* docstring / `task name(deps) -> outs {` / commands indented by four blanks / `}` and a blank line; single outputs bare,
+\* lists joined by ", "; and a lone `#` line between a printed comment and a task without docstring text.
+Trimmed == JsonDeserialize("trimmed.json")       \* [comment lexeme id |-> id of the lexeme holding its trimmed text]
+LF == <<[k |-> "ws", id |-> "lf", n |-> 1, nl |-> 1]>>
+RECURSIVE CArgs(_, _)
+CArgs(as, i) == IF i > Len(as) THEN << >>
+                ELSE Arg(as[i]) \o (IF i < Len(as) THEN Tk("COMMA", "", 1) \o W("sp1") ELSE << >>) \o CArgs(as, i + 1)
+CArgList(as) == Tk("LPAREN", "", 1) \o CArgs(as, 1) \o Tk("RPAREN", "", 1)
+CComment(id) == IF LexLen[id] = 0 THEN << >>
+                ELSE Tk("HASH", "", 1) \o W("sp1") \o Tk("COMMENT", Trimmed[id], LexLen[Trimmed[id]]) \o LF
+RECURSIVE CCmds(_, _)
+CCmds(cs, i) == IF i > Len(cs) THEN << >> ELSE W("sp4") \o Tk("COMMAND", cs[i], LexLen[cs[i]]) \o LF \o CCmds(cs, i + 1)
+DocPrints(n) == n.doc # "-" /\ LexLen[n.doc] > 0
+CStmt(n) ==
+  CASE n.k = "comment" -> CComment(n.id)
+    [] n.k = "assign" -> Tk("IDENT", n.name, LexLen[n.name]) \o W("sp1") \o Tk("DECLARE", "", 2) \o W("sp1")
+                         \o (IF n.val.k = "str" THEN Arg(n.val) ELSE Tk("IDENT", n.val.fn, LexLen[n.val.fn]) \o CArgList(n.val.args)) \o LF
+    [] n.k = "task" -> (IF DocPrints(n) THEN CComment(n.doc) ELSE << >>)
+                       \o Tk("TASK", "", 4) \o W("sp1") \o Tk("IDENT", n.name, LexLen[n.name]) \o CArgList(n.deps)
+                       \o (IF Len(n.outs) = 0 THEN << >>
+                           ELSE W("sp1") \o Tk("OUTPUT", "", 2) \o W("sp1") \o (IF Len(n.outs) = 1 THEN Arg(n.outs[1]) ELSE CArgList(n.outs)))
+                       \o W("sp1") \o Tk("LBRACE", "", 1) \o LF \o CCmds(n.cmds, 1) \o Tk("RBRACE", "", 1) \o LF \o LF
+RECURSIVE Canon(_, _, _)
+\* afterComment: the last thing written was a comment line
+Canon(st, i, afterComment) ==
+  IF i > Len(st) THEN << >>
+  ELSE LET n == st[i]
+           sep == IF n.k = "task" /\ afterComment /\ ~DocPrints(n) THEN Tk("HASH", "", 1) \o LF ELSE << >>
+           body == CStmt(n)
+           after == IF body = << >> THEN afterComment ELSE n.k = "comment"
+       IN sep \o body \o Canon(st, i + 1, after)
+
 \* ---------- the token stream the text denotes ----------
 RECURSIVE Toks(_, _, _, _)
 Toks(ps, i, off, line) ==
@@ -104,5 +138,6 @@ NoAccidentalDoc == \A i \in 1..(Len(Structures[si].nodes) - 1) :
                        /\ Structures[si].nodes[i + 1].doc = "-")
 Emit == LET ps == Pieces IN
         PrintT(<<"SYN", ToJson([si |-> si, pieces |-> [i \in 1..Len(ps) |-> [k |-> ps[i].k, id |-> ps[i].id]],
-                               toks |-> Toks(ps, 1, 0, 1)])>>)
+                               toks |-> Toks(ps, 1, 0, 1),
+                               fmt |-> (LET cs == Canon(Structures[si].nodes, 1, FALSE) IN [i \in 1..Len(cs) |-> [k |-> cs[i].k, id |-> cs[i].id]])])>>)
 ==============================================================================
